@@ -4476,10 +4476,19 @@ inline int CLUFactorRational::solveLleft(Rational* vec, int* nonz, int rn)
 
 #else
 
+   /* The floating-point version keeps an entry that cancels to zero alive with a tiny marker value, so that "vec[m] == 0" means
+    * "m is not in the heap".  An exact zero cannot carry a marker, hence the heap membership is tracked explicitly: without it an
+    * index that cancels and is filled again was queued twice and its row eliminated twice.
+    */
+   std::vector<char> inHeap(thedim, 0);
+
    /*  move rhsidx to a heap
     */
    for(i = 0; i < rn;)
+   {
+      inHeap[nonz[i]] = 1;
       enQueueMaxRat(nonz, &i, rperm[nonz[i]]);
+   }
 
    last = nonz + thedim;
 
@@ -4487,6 +4496,7 @@ inline int CLUFactorRational::solveLleft(Rational* vec, int* nonz, int rn)
    {
       i = deQueueMaxRat(nonz, &rn);
       r = rorig[i];
+      inHeap[r] = 0;
       x = vec[r];
 
       if(x != 0)
@@ -4511,7 +4521,12 @@ inline int CLUFactorRational::solveLleft(Rational* vec, int* nonz, int rn)
                if(y != 0)
                {
                   vec[m] = y;
-                  enQueueMaxRat(nonz, &rn, rperm[m]);
+
+                  if(!inHeap[m])
+                  {
+                     inHeap[m] = 1;
+                     enQueueMaxRat(nonz, &rn, rperm[m]);
+                  }
                }
             }
             else
